@@ -20,7 +20,8 @@ Inductive event :=
 | EvGet (o : value) (k : string)                         (* property read o.k *)
 | EvCallT (f this : value) (args : list value)           (* call of f with an explicit receiver *)
 | EvSet (o : value) (k : string) (v : value)             (* property write o.k = v *)
-| EvWrite (x : string) (v : value).                      (* assignment to a user variable *)
+| EvWrite (x : string) (v : value)                       (* assignment to a user variable *)
+| EvStr (v : value).                                     (* implicit coercion of a template substitution to a string *)
 Definition hist := list event.
 Inductive resp := RRet (v : value) | RThr (v : value).
 
@@ -47,7 +48,9 @@ Inductive expr :=
 | Hoist3 (n1 : nat) (e1 : expr) (n2 : nat) (e2 : expr) (n3 : nat) (e3 : expr) (body : expr)
 | Hoist2 (n1 : nat) (e1 : expr) (n2 : nat) (e2 : expr) (body : expr)   (* (t1 = e1, t2 = e2, body) *)
 | Hoist1 (n1 : nat) (e1 : expr) (body : expr)
-| Hook (first : expr) (args : list expr).
+| Hook (first : expr) (args : list expr)
+| Tpl1 (q0 : string) (e : expr) (q1 : string)                            (* `q0${e}q1` *)
+| Tpl2 (q0 : string) (e1 : expr) (q1 : string) (e2 : expr) (q2 : string). (* `q0${e1}q1${e2}q2` *)
 
 Definition tenv := nat -> value.
 Definition upd (t : tenv) (n : nat) (v : value) : tenv := fun m => if Nat.eqb m n then v else t m.
@@ -80,6 +83,28 @@ Definition do_add (a b : value) (s : st) : out * st :=
   | Some v => (Ret v, s)
   | None => fire (EvAdd a b) s
   end.
+
+(** The coercion of a template substitution: nothing to observe on a primitive string, an interaction with the
+    world (the object's [toString] / [Symbol.toPrimitive]) otherwise. *)
+Definition do_str (v : value) (s : st) : out * st :=
+  match v with
+  | VStr _ => (Ret v, s)
+  | _ => fire (EvStr v) s
+  end.
+
+Definition cat (a b : value) : value :=
+  match a, b with
+  | VStr x, VStr y => VStr (x ++ y)
+  | _, _ => VUndef
+  end.
+
+(** What a template does once its substitutions have been evaluated: they are coerced, left to right, and the
+    pieces are concatenated. *)
+Definition tpl1_tail (q0 : string) (v : value) (q1 : string) (s : st) : out * st :=
+  bind (do_str v s) (fun r s2 => (Ret (cat (cat (VStr q0) r) (VStr q1)), s2)).
+Definition tpl2_tail (q0 : string) (v1 : value) (q1 : string) (v2 : value) (q2 : string) (s : st) : out * st :=
+  bind (do_str v1 s) (fun r1 s2 => bind (do_str v2 s2) (fun r2 s3 =>
+    (Ret (cat (cat (cat (cat (VStr q0) r1) (VStr q1)) r2) (VStr q2)), s3))).
 
 Fixpoint eval (e : expr) (s : st) : out * st :=
   match e with
@@ -137,6 +162,12 @@ Fixpoint eval (e : expr) (s : st) : out * st :=
            | [] => (Ret v, s)
            | a :: rest => bind (eval a s) (fun _ s' => go rest s')
            end) args s1)
+  | Tpl1 q0 e1 q1 => bind (eval e1 s) (fun v s1 => tpl1_tail q0 v q1 s1)
+  | Tpl2 q0 e1 q1 e2 q2 =>
+      (* C01 identifies executions that differ only in the moment at which a substitution is coerced relative
+         to the evaluation of LATER substitutions; the representative taken here coerces after all of them
+         have been evaluated (the standard one coerces each right after its evaluation) *)
+      bind (eval e1 s) (fun v1 s1 => bind (eval e2 s1) (fun v2 s2 => tpl2_tail q0 v1 q1 v2 q2 s2))
   end.
 
 (* ---- the rewriter (binary + only), children first, counter threaded ---- *)
@@ -197,6 +228,16 @@ Variable lit_ok : string -> bool.
 Definition arg_act (a' : expr) : act :=
   match a' with Lit _ => Keep | Add _ _ => Stay | _ => Hoist end.
 
+(** [to_dd_call_expr] looks at a method call only when its receiver is a literal, an identifier, a call, a
+    parenthesised expression or a member (an array literal too: not in this fragment) -- not when it is a
+    template literal that was left alone. *)
+Definition recv_ok (o' : expr) : bool :=
+  match o' with
+  | Lit _ | Var _ | Tmp _ | CallE _ _ | MCall0 _ _ | MCall1 _ _ _ | CallT0 _ _ | CallT1 _ _ _ | Hook _ _
+  | Par _ | Hoist1 _ _ _ | Hoist2 _ _ _ _ _ | Hoist3 _ _ _ _ _ _ _ | Get _ _ => true
+  | _ => false
+  end.
+
 Definition rw_mcall (o' : expr) (m : string) (a' : expr) (c2 : nat) : expr * nat :=
   let '(r, br, c3) := if is_lit o' then (o', [], c2) else (Tmp c2, [(c2, o')], S c2) in
   let f := Tmp c3 in
@@ -223,6 +264,18 @@ Definition rw_addasg_m (o' : expr) (k : string) (e' : expr) (c2 : nat) : expr * 
   let '(sum, c4) := rw_add (Get ob k) (group_sum e') c3 in
   (wrap bo (AsgM ob k sum), c4).
 
+(** [to_dd_tpl_expr]: every substitution is captured ([IdentMode::Replace]: identifiers too) unless it is a
+    literal or a sum left in place (which is not passed to the hook); the hook is called on the template itself. *)
+Definition rw_tpl1 (q0 : string) (e' : expr) (q1 : string) (c1 : nat) : expr * nat :=
+  let '(x, b, c2) := match arg_act e' with Hoist => (Tmp c1, [(c1, e')], S c1) | _ => (e', [], c1) end in
+  (wrap b (Hook (Tpl1 q0 x q1) (match arg_act e' with Stay => [] | _ => [x] end)), c2).
+
+Definition rw_tpl2 (q0 : string) (e1' : expr) (q1 : string) (e2' : expr) (q2 : string) (c2 : nat) : expr * nat :=
+  let '(x1, b1, c3) := match arg_act e1' with Hoist => (Tmp c2, [(c2, e1')], S c2) | _ => (e1', [], c2) end in
+  let '(x2, b2, c4) := match arg_act e2' with Hoist => (Tmp c3, [(c3, e2')], S c3) | _ => (e2', [], c3) end in
+  (wrap (b1 ++ b2) (Hook (Tpl2 q0 x1 q1 x2 q2)
+     ((match arg_act e1' with Stay => [] | _ => [x1] end) ++ (match arg_act e2' with Stay => [] | _ => [x2] end))), c4).
+
 Fixpoint rw (e : expr) (c : nat) : expr * nat :=
   match e with
   | Add l r =>
@@ -238,11 +291,17 @@ Fixpoint rw (e : expr) (c : nat) : expr * nat :=
       rw_addasg_m o' k e' c2
   | MCall0 o m =>
       let '(o', c1) := rw o c in
-      if instr m && (negb (is_lit o') || lit_ok m) then rw_mcall0 o' m c1 else (MCall0 o' m, c1)
+      if instr m && (negb (is_lit o') || lit_ok m) && recv_ok o' then rw_mcall0 o' m c1 else (MCall0 o' m, c1)
   | MCall1 o m a =>
       let '(o', c1) := rw o c in
       let '(a', c2) := rw a c1 in
-      if instr m && (negb (is_lit o') || lit_ok m) then rw_mcall o' m a' c2 else (MCall1 o' m a', c2)
+      if instr m && (negb (is_lit o') || lit_ok m) && recv_ok o' then rw_mcall o' m a' c2 else (MCall1 o' m a', c2)
+  | Tpl1 q0 e1 q1 =>
+      (* a template with a literal substitution is left alone, and its substitutions are not visited *)
+      if is_lit e1 then (e, c) else let '(e', c1) := rw e1 c in rw_tpl1 q0 e' q1 c1
+  | Tpl2 q0 e1 q1 e2 q2 =>
+      if is_lit e1 || is_lit e2 then (e, c)
+      else let '(e1', c1) := rw e1 c in let '(e2', c2) := rw e2 c1 in rw_tpl2 q0 e1' q1 e2' q2 c2
   | _ => (e, c)
   end.
 
@@ -258,6 +317,8 @@ Fixpoint src (e : expr) : Prop :=
   | AddAsgM o _ e1 => src o /\ src e1
   | MCall0 o _ => src o
   | MCall1 o _ a => src o /\ src a
+  | Tpl1 _ e1 _ => src e1
+  | Tpl2 _ e1 _ e2 _ => src e1 /\ src e2
   | _ => False
   end.
 
@@ -282,6 +343,8 @@ Fixpoint temps_in (lo hi : nat) (e : expr) : Prop :=
   | Hoist2 n1 e1 n2 e2 b => lo <= n1 < hi /\ lo <= n2 < hi /\ temps_in lo hi e1 /\ temps_in lo hi e2 /\ temps_in lo hi b
   | Hoist1 n1 e1 b => lo <= n1 < hi /\ temps_in lo hi e1 /\ temps_in lo hi b
   | Hook f args => temps_in lo hi f /\ (fix go (l : list expr) : Prop := match l with [] => True | a :: r => temps_in lo hi a /\ go r end) args
+  | Tpl1 _ e1 _ => temps_in lo hi e1
+  | Tpl2 _ e1 _ e2 _ => temps_in lo hi e1 /\ temps_in lo hi e2
   end.
 
 Definition agree_below (lo : nat) (t t' : tenv) : Prop := forall n, n < lo -> t n = t' n.
